@@ -269,9 +269,31 @@ def run(repo, rep, tier):
     hs_defs = {unparse(n.targets[0]): unparse(n.value) for n in walk_no_nested(oa) if isinstance(n, ast.Assign) and unparse(n.targets[0]) in ('hostkey_size', 'ca_key_type', 'ca_key_size') and 'host_keys' in unparse(n.value)}
     want_d = {'hostkey_size': "cast(int, host_keys[alg_name]['hostkey_size'])", 'ca_key_type': "cast(str, host_keys[alg_name]['ca_key_type'])", 'ca_key_size': "cast(int, host_keys[alg_name]['ca_key_size'])"}
     rep.check('suffix', 'suffix values are read from the like-named record fields of this algorithm', hs_defs == want_d, oa, 'suffix value sources: %s' % hs_defs)
-    js = {unparse(n.targets[0]): [(unparse(t), p) for t, p, k in path_condition(n) if k == 'if'] for n in walk_no_nested(bs) if isinstance(n, ast.Assign) and unparse(n.targets[0]) in ("entry['keysize']", "entry['casize']", "entry['ca_algorithm']")}
-    ok = all(('ca_size > 0', True) in js.get(k, []) for k in ("entry['casize']", "entry['ca_algorithm']"))
-    rep.check('suffix', 'JSON: casize / ca_algorithm iff a CA size was recorded', ok, bs, 'JSON CA fields guards: %s' % js)
-    ks = [n for n in walk_no_nested(bs) if isinstance(n, ast.Assign) and unparse(n.targets[0]) == "entry['keysize']" and unparse(n.value) == 'hostkey_size' and any('host_keys' in unparse(t) for t, p, k in path_condition(n))]
-    ok = len(ks) == 1 and any(unparse(t) == "algorithm in HostKeyTest.RSA_FAMILY or algorithm.startswith('ssh-rsa-cert-v0')" and p for t, p, k in path_condition(ks[0]))
-    rep.check('suffix', 'JSON: keysize for RSA-family keys and RSA certificates', ok, ks[0] if ks else bs, 'JSON keysize guard changed')
+    # JSON size fields by interpretation (props/_sections.run_build_struct): build_struct on a key list with recorded host keys of every kind
+    from props import _sections as _sec11
+    names_ = ['rsa-sha2-512', 'ssh-rsa', 'ssh-ed25519', 'ssh-rsa-cert-v01@openssh.com', 'ssh-ed25519-cert-v01@openssh.com', 'ecdsa-sha2-nistp256', 'ssh-dss']
+    hk_ = {'rsa-sha2-512': {'raw_hostkey_bytes': b'k1', 'hostkey_size': 3072, 'ca_key_type': '', 'ca_key_size': 0}, 'ssh-rsa': {'raw_hostkey_bytes': b'k1', 'hostkey_size': 3072, 'ca_key_type': '', 'ca_key_size': 0},
+           'ssh-ed25519': {'raw_hostkey_bytes': b'k2', 'hostkey_size': 256, 'ca_key_type': '', 'ca_key_size': 0},
+           'ssh-rsa-cert-v01@openssh.com': {'raw_hostkey_bytes': b'k3', 'hostkey_size': 4096, 'ca_key_type': 'ssh-ed25519', 'ca_key_size': 256},
+           'ssh-ed25519-cert-v01@openssh.com': {'raw_hostkey_bytes': b'k4', 'hostkey_size': 256, 'ca_key_type': 'ssh-rsa', 'ca_key_size': 2048}}
+    try:
+        res_, _lists = _sec11.run_build_struct(repo, 2, key_names=names_, host_keys=hk_)
+    except AnalysisError as ex:
+        raise AnalysisError('JSON size fields: %s' % ex)
+    ents = {e_.get('algorithm'): e_ for e_ in res_.get('key', []) if isinstance(e_, dict)}
+    badj = []
+    for nm_ in names_:
+        e_ = ents.get(nm_)
+        if e_ is None:
+            badj.append('%s has no JSON entry' % nm_)
+            continue
+        rec_ = hk_.get(nm_)
+        want_ks = rec_['hostkey_size'] if rec_ is not None and (nm_ in ('ssh-rsa', 'rsa-sha2-256', 'rsa-sha2-512') or nm_.startswith('ssh-rsa-cert-v0')) else None
+        want_ca = (rec_['ca_key_type'], rec_['ca_key_size']) if rec_ is not None and rec_['ca_key_size'] > 0 else None
+        if e_.get('keysize') != want_ks:
+            badj.append('%s: keysize is %r, expected %r' % (nm_, e_.get('keysize'), want_ks))
+        got_ca = (e_.get('ca_algorithm'), e_.get('casize')) if ('casize' in e_ or 'ca_algorithm' in e_) else None
+        if got_ca != want_ca:
+            badj.append('%s: CA fields are %r, the record says %r' % (nm_, got_ca, want_ca))
+    rep.check('suffix', 'JSON: keysize for RSA-family keys and RSA certificates, casize / ca_algorithm iff a CA size was recorded, each from the record of that very algorithm (%d key types)' % len(names_), not badj, bs,
+              'JSON size fields differ from the recorded host keys: %s' % '; '.join(badj[:3]), stmt='JSON size fields')
